@@ -113,7 +113,7 @@ prop('C10', src='props/c10_features.cpp',
      plan={'quick': [{'variant': 'asan', 'workers': 16}], 'thorough': [{'variant': 'asan', 'workers': 16}, {'variant': 'rel', 'workers': 16}]},
      rule='(1) exhaustive core: enabling argument in {0..7, 8, 16, 24, 0xF8|k, 0xFFFFFFF8|k} (27 values) x feature value 0..31 x create-argument with/without high bits x 2 languages, each through four entry points (create, load of the model image, decode_explicit and decode of the specification phrase) plus wrong-check-value variants (CHECKSUM must precede UNSUPPORTED); default state probed before the first enabling call; '
           '(2) rapidcheck histories of 1-6 enabling calls. Oracle: return = popcount(arg & 7); accepted iff f & ~(m|16) == 0 with m = last arg & 7, else UNSUPPORTED with no block left allocated; create stores exactly arg & 7; get_feature(q) = f & q & 7 for q in 0..31 and with high bits; is_encrypted = bit 4; features survive phrase/storage round trips; crypt toggles only bit 4. Every case non-trivial.',
-     required_classes={'any': ['default-state', 'create:accepted', 'create:refused', 'load:accepted', 'load:refused', 'decode_explicit:accepted', 'decode_explicit:refused', 'decode:accepted', 'decode:refused', 'reserved-kdf-bit', 'history>1', 're-injection-between-enabling-and-use']},
+     required_classes={'any': ['default-state', 'create:accepted', 'create:refused', 'load:accepted', 'load:refused', 'decode_explicit:accepted', 'decode_explicit:refused', 'decode:accepted', 'decode:refused', 'reserved-kdf-bit', 'history>1', 're-injection-between-enabling-and-use', 'burst-of-enabling-calls', 'enabling-call-from-another-thread']},
      technique='exhaustive enumeration of (mask argument x feature value x entry point) + property-based histories of enabling calls against a feature-admission model',
      level_text='The finite core (27 enabling arguments x 32 feature values x 4 entry points) is enumerated completely on every run; histories of enabling calls and seed contents are sampled. Exploration with an exhaustive core.')
 
@@ -156,7 +156,7 @@ prop('C09', src='props/c09_detect.cpp', src_by_variant={'fuzz': 'fuzz/fuzz_api.c
           'Oracle: with E[l] = decode_explicit(s, coin, l) and R = {l: E[l] not in {NUM_WORDS, LANG}}: decode = NUM_WORDS iff any (then every) E[l] is; LANG iff R empty; MULT_LANG iff |R| >= 2; else E[l] with that language and equal store bytes; '
           'NUM_WORDS iff the reference tokenizer (single U+0020 after NFKD, one trailing empty token dropped) does not give 16 tokens (strings whose NFKD form fits the buffer); an empty token is a language error; with every allocation failing only would-be OK/UNSUPPORTED outcomes become MEMORY. '
           'Non-trivial = |R| >= 1 or 15-17 tokens; distinct = fingerprint of (string, coin).',
-     required_classes={'any': ['R=>=2/MULT_LANG', 'R=1/OK', 'R=1/CHECKSUM', 'R=0/LANG', 'R=0/NUM_WORDS', 'R>=2 with differing checksum verdicts', 'tokens:15', 'tokens:17', 'with-allocation-failure', 'gen:ambiguous:valid-in-first', 'gen:ambiguous:valid-in-second', 'mode:structured-phrase', 'mode:raw-string']},
+     required_classes={'any': ['R=>=2/MULT_LANG', 'R=1/OK', 'R=1/CHECKSUM', 'R=0/LANG', 'R=0/NUM_WORDS', 'R>=2 with differing checksum verdicts', 'R>=3', 'with-prelude-of-same-language-decodes', 'gen:first-words-shared-rest-second-language:valid-in-second', 'tokens:15', 'tokens:17', 'with-allocation-failure', 'gen:ambiguous:valid-in-first', 'gen:ambiguous:valid-in-second', 'mode:structured-phrase', 'mode:raw-string']},
      assumptions=FUZZ_ASSUME,
      technique='property-based differential testing (rapidcheck: auto-detection vs explicit decoding in every language, reference tokenizer) + coverage-guided fuzzing (libFuzzer, ASan+UBSan) with the same oracle inside the target',
      level_text='The relation between the two decoders, the status precedence and the token-boundary rule are checked on every generated and fuzzed string; ambiguity builders make the multi-language outcomes common. Exploration over an infinite input space.')
@@ -165,10 +165,10 @@ prop('C14', src='props/c14_safety.cpp', src_by_variant={'fuzz': 'fuzz/fuzz_api.c
      plan={'quick': [{'variant': 'fuzz', 'workers': 16, 'fuzz': True, 'runs': {'quick': 50000, 'thorough': 4000000}}, {'variant': 'asan', 'workers': 16}],
            'thorough': [{'variant': 'fuzz', 'workers': 16, 'fuzz': True, 'runs': {'quick': 50000, 'thorough': 4000000}, 'timeout': 14400}, {'variant': 'asan', 'workers': 16}]},
      rule='libFuzzer (clang 14, ASan+UBSan, library assertions on): bytes decoded into (mode, coin, normaliser strict|lenient, allocation-failure switch, enabled mask) and a raw string | a word-level phrase description with 0-4 mutations (separators, deleted/duplicated/foreign/emptied/truncated tokens, 600-byte tokens, 200 combining accents) | a password | a 32-byte buffer; half the workers start from the committed seed corpus, half from nothing. '
-          'rapidcheck grammar: strings whose raw or NFKD length is POLYSEED_STR_SIZE-3..+3 in eight shapes (ASCII padding, no-space run, accents after a stem, many short tokens, multi-byte padding, separators only, stray high bytes at the end, non-ASCII beyond the limit), random byte strings, word soups with stray bytes, 32-byte buffers; phrases and passwords. '
+          'rapidcheck grammar: strings whose raw or NFKD length is POLYSEED_STR_SIZE-3..+3 in eight shapes (ASCII padding, no-space run, accents after a stem, many short tokens, multi-byte padding, separators only, stray high bytes at the end, non-ASCII beyond the limit), random byte strings, word soups with stray bytes, 32-byte buffers; phrases and passwords; three ASCII strings of 2^31-1, 2^31+1 MiB and 2^32+1 MiB bytes (one 2 MiB block mapped repeatedly) given to both decoders and to crypt. '
           'Oracle: no sanitizer report, assertion or signal; every status is documented for that function; the input (in an exactly-sized heap block) is unchanged; after a failed call no block is allocated, after success exactly one, gone after free; crypt leaves a loadable seed and passes <= POLYSEED_STR_SIZE-1 password bytes to the KDF; each input finishes (libFuzzer: 30 s per input; rapidcheck: a 60 s per-case watchdog dumps the case; either is re-run alone 3x by the driver before it counts). '
           'Non-trivial = reaches word lookup (>= 16 tokens) or length within 8 of the buffer size or a byte >= 0x80; distinct = fingerprint of the input.',
-     required_classes={'any': ['raw-length-within-8-of-buffer-size', 'nfkd-length-within-8-of-buffer-size', 'normaliser-truncated', 'password', 'load:OK', 'load:FORMAT', 'load:MEMORY', 'mode:structured-phrase', 'mode:raw-string', 'mode:password', 'length-near-buffer-size', 'invalid-utf8']},
+     required_classes={'any': ['raw-length-within-8-of-buffer-size', 'nfkd-length-within-8-of-buffer-size', 'normaliser-truncated', 'giant-input(>=2GiB)', 'password', 'load:OK', 'load:FORMAT', 'load:MEMORY', 'mode:structured-phrase', 'mode:raw-string', 'mode:password', 'length-near-buffer-size', 'invalid-utf8']},
      assumptions=FUZZ_ASSUME + ['"terminates" is decided as a per-input time bound, not a termination proof'],
      technique='coverage-guided fuzzing (libFuzzer + ASan + UBSan, structure-aware byte decoding) + property-based grammar of boundary-length strings (rapidcheck); safety/totality oracle in-process',
      level_text='Sanitised, assertion-enabled builds are driven by coverage-guided fuzzing and a boundary-length grammar; every call is judged for memory safety, status range, input immutability and allocator balance. Exploration: no absence proof.')
@@ -178,7 +178,7 @@ prop('C13', src='props/c13_model.cpp', engine='rapidcheck (stateful)',
            'thorough': [{'variant': 'asan-nd', 'workers': 16}, {'variant': 'asan', 'workers': 16, 'scale': 0.3}, {'variant': 'rel', 'workers': 16}]},
      rule='stateful model-based testing: sequences (length <= 60 quick / <= 200 thorough) over 14 operations on 4 slots - inject(set A|B, optional entries present or NULL), enable_features, create, load(image of a slot | wrong check | wrong header | reserved bit | padding bit | fresh seed), decode / decode_explicit (phrase just encoded from a slot: same coin, other coin, other language, abbreviated, trailing space, 17 tokens, 15 tokens, unknown word; or fixed malformed strings), crypt (6 passwords incl. composed/decomposed pair), encode, store, keygen, queries, free, free(NULL), arm allocation failure - '
           'plus exhaustive enumeration of all 66429 sequences of length <= 5 over 9 fixed-argument operations. Oracle: abstract model (enabled mask, current dependency set, slot -> (secret, birthday, features)): every status, phrase, KDF argument list and query equals the model\'s; after every step each live seed\'s store image equals the model image (canonical; other slots untouched), '
-          'allocator ledger = live slots, no call lands in the non-current dependency set; fresh blocks are garbage-filled. Non-trivial = crypt followed by encode/store of that slot, or >= 2 live seeds, or a re-injection, or a failed constructor; distinct = fingerprint of the sequence.',
+          'allocator ledger = live slots, no call lands in the non-current dependency set; fresh blocks are garbage-filled; the writable static storage that the library objects contribute to the executable (from the linker map, incl. thread-local sections) is snapshotted around every operation: only inject and enable_features may change it, any other call may write a byte once from zero (lazy initialisation) and never again. Non-trivial = crypt followed by encode/store of that slot, or >= 2 live seeds, or a re-injection, or a failed constructor; distinct = fingerprint of the sequence.',
      required_classes={'quick': ['seq:crypt-then-encode/store', 'seq:>=2-live-seeds', 'seq:re-injection', 'seq:failed-constructor', 'seq:allocation-failure-observed', 'decode:OK', 'decode:CHECKSUM', 'decode:MULT_LANG', 'decode_explicit:LANG', 'load:UNSUPPORTED', 'load:FORMAT', 'create:UNSUPPORTED'], 'thorough': ['seq:crypt-then-encode/store', 'seq:>=2-live-seeds', 'seq:re-injection', 'seq:failed-constructor']},
      technique='stateful model-based property testing (rapidcheck operation sequences against an abstract seed model, invariant after every step) + exhaustive enumeration of all short sequences',
      level_text='Random walks over the whole API are compared step by step with an abstract model, and every sequence of length <= 5 over a reduced alphabet is enumerated. Exploration of an unbounded history space.')
@@ -200,7 +200,7 @@ prop('C18', src='props/c18_deps.cpp', engine='rapidcheck (stateful)',
           '(2) rapidcheck injection histories: sequences in which about one operation in six is polyseed_inject with set A or B and each optional entry (time, alloc, free) present or NULL, the caller\'s struct overwritten with 0x41 right after the call, interleaved with create/load/decode/crypt/keygen/encode/free on 4 slots. '
           'Oracle: every dependency call during an operation lands in the set that is current (the other set\'s call counters do not move; the KDF of each set is keyed differently so a stale pointer also shows as a model mismatch); create takes 19 bytes in total from the current random source and asks the current clock; freed blocks are wiped; '
           'in the --wrap build (gcc -O2 -DNDEBUG, malloc/free/time interposed at link time) libc malloc/free/time are called inside an API window exactly when the corresponding entry is NULL. Non-trivial = sequence contains an injection; distinct = fingerprint of the sequence.',
-     required_classes={'any': ['single-bit-random-output', 'pairwise-entry-replacement', 'seq:re-injection-to-other-set', 'inject:opt=7', 'inject:opt=1', 'op:create', 'op:crypt']},
+     required_classes={'any': ['single-bit-random-output', 'pairwise-entry-replacement', 'random-source-writes-nothing', 'seq:re-injection-to-other-set', 'inject:opt=7', 'inject:opt=1', 'op:create', 'op:crypt']},
      assumptions=['with the time entry NULL the birthday is compared with the host clock (+-1 month)'],
      technique='stateful property-based testing of injection histories (rapidcheck) with recording dependency sets A/B and link-time interposition of libc malloc/free/time; exhaustive single-bit random outputs',
      level_text='Call logs of two independent dependency sets and interposed libc functions decide, per operation, which implementation was used; all single-bit random outputs are enumerated. Exploration over histories.')
@@ -239,7 +239,7 @@ prop('C20', src='props/c20_threads.cpp', engine='rapidcheck + ThreadSanitizer', 
      plan={'quick': [{'variant': 'tsan', 'workers': 12, 'cap_to_cores': True}], 'thorough': [{'variant': 'tsan', 'workers': 16, 'timeout': 14400}]},
      rule='rapidcheck thread scripts on a ThreadSanitizer build (clang -fsanitize=thread, halt_on_error): N in {2,4,8,16} threads start together and each runs its own generated operation sequence (create, load, decode, decode_explicit, crypt, encode, store, keygen, queries, free, allocation-failure arming; 10-50 operations) on its own seed objects; dependencies are injected and features enabled once before the threads start; the lock-free thread_local stubs yield (sched_yield or a short spin, per case) at every dependency call. '
           'Oracle: no ThreadSanitizer report; every thread\'s transcript (status counters, store image of each of its seeds after every step, last KDF arguments) equals the transcript of the same script executed alone afterwards. Non-trivial = at least two threads were in flight at the same time (relaxed atomic counter); distinct = fingerprint of the scripts.',
-     required_classes={'any': ['overlapping(>=2 threads in flight)', 'threads:2', 'threads:8', 'threads:16', 'allocator:libc-default', 'allocator:injected']},
+     required_classes={'any': ['overlapping(>=2 threads in flight)', 'threads:2', 'threads:8', 'threads:16', 'allocator:libc-default', 'allocator:injected', 'cold-start-under-contention']},
      assumptions=['ThreadSanitizer happens-before analysis over sampled schedules: no liveness guarantee, and a race needing an access pair the scripts never produce is missed', 'a TSan report is reported even if a replay of the same scripts does not reproduce it (schedules cannot be pinned)'],
      technique='property-based testing of concurrent schedules (rapidcheck-generated per-thread operation scripts, yielding stubs) under ThreadSanitizer, with serial-transcript equality',
      level_text='Schedules are sampled, not enumerated: ThreadSanitizer flags any pair of conflicting unsynchronised accesses that the scripts execute, and per-thread transcripts are compared with a serial run. Exploration.')
